@@ -19,7 +19,8 @@ RULE = (
     "of the corpus. Oracle: eval(repr(ast)) in the namespace of c_ast has the same dump; for every pickle protocol 2..HIGHEST "
     "and copy.deepcopy the copy has the same dump including coordinates, generates the same C text, shares no node, list or "
     "Coord object with the original, and mutating every attribute and list of the copy leaves the original's dump unchanged. "
-    "Non-trivial: the AST contains a string/char constant with a quote or backslash, or >= 10 node classes; distinct by hash of "
+    "The tree rebuilt from repr() must also generate the same text under both generator configurations; every second AST is "
+    "pickled / deep-copied while weak references to all of its nodes are alive. Non-trivial: the AST contains a string/char constant with a quote or backslash, or >= 10 node classes; distinct by hash of "
     "the source."
 )
 ASSUMPTIONS = ["nesting depth of generated ASTs stays below 40 so that eval/pickle recursion limits are never the cause of a failure"]
@@ -112,6 +113,14 @@ def check_ast(ast, src, case):
         if gb != g0 or gbr != g0r:
             fail("repr", case, src, "eval(repr(ast)) is structurally identical but generates different C text", "repr-gen-differs")
     copies = []
+    # nodes carry a __weakref__ slot so that users can keep weak references to
+    # them (a weak child -> parent map is the usual reason): every second AST is
+    # copied while such references are alive
+    import weakref
+
+    from ..astdump import walk
+
+    alive = [weakref.ref(n) for n in walk(ast)] if len(d0) % 2 == 0 or len(src) % 2 == 0 else []
     for p in range(2, pickle.HIGHEST_PROTOCOL + 1):
         try:
             cp = pickle.loads(pickle.dumps(ast, protocol=p))
@@ -142,6 +151,7 @@ def check_ast(ast, src, case):
         mutate(cp)
         if dump(ast, True) != d0c:
             fail(kind, case, src, "mutating the %s copy changed the original" % name, kind + "-not-independent")
+    del alive
 
 
 def nontrivial(ast):
